@@ -338,7 +338,7 @@ def run(res, tier, seed, replay_cases=None):
     wd = os.path.join(vlib.BUILD, "work", PID)
     os.makedirs(wd, exist_ok=True)
     r = vlib.rng(seed, PID)
-    ncases = {"quick": 72, "thorough": 600}[tier] * (3 if proof_broken else 1)
+    ncases = {"quick": 130, "thorough": 2200}[tier] * (3 if proof_broken else 1)
     maxt = {"quick": 60, "thorough": 110}[tier]
 
     if replay_cases is not None:
